@@ -990,3 +990,9 @@ func c19ExecRestr(c c19RestrCase) kit.Outcome {
 func TestC19RestrictedTags(t *testing.T) {
 	kit.Check(t, "C19", "TestC19RestrictedTags", c19GenRestr, c19ExecRestr)
 }
+
+// FuzzC19Query: the same generator and oracle as TestC19Query under Go's coverage-guided fuzzer (thorough tier).
+func FuzzC19Query(f *testing.F) { kit.FuzzOf(f, "C19", "TestC19Query", c19GenQuery, c19ExecQuery) }
+
+// FuzzC19NormalizeTags: the same generator and oracle as TestC19NormalizeTags under Go's coverage-guided fuzzer (thorough tier).
+func FuzzC19NormalizeTags(f *testing.F) { kit.FuzzOf(f, "C19", "TestC19NormalizeTags", c19GenTags, c19ExecTags) }
